@@ -53,6 +53,9 @@ fn build_in_child(cfg: &BuilderConfig, variant: usize) -> Result<Vec<u8>, (Strin
         .env("USER", format!("user{variant}"))
         .env("HOSTNAME", format!("host{variant}"))
         .env("VCHECK_UMASK", umask)
+        // environment conventions of other build tools must not override the source date the
+        // caller passed to the builder: absent / far future / epoch
+        .envs([("SOURCE_DATE_EPOCH", "4102444800"), ("SOURCE_DATE_EPOCH", "0")].into_iter().skip(variant % 3).take(if variant % 3 == 0 { 0 } else { 1 }))
         .env("VCHECK_SCRATCH", crate::engine::worker::scratch_dir())
         .current_dir(cwd)
         .stdin(std::process::Stdio::piped())
@@ -104,7 +107,7 @@ impl Property for C11 {
         C11
     }
     fn rule(&self) -> String {
-        "builder configurations with a source date in the past, up to 5 distinct non-root users and groups, file mtimes on both sides of the source date, unsigned or signed with a deterministic key (RSA PKCS#1, Ed25519, ECDSA/RFC6979); each configuration is built 3 times sequentially and 3 times concurrently (threads) in this process and 3 times in freshly started child processes with different TZ, working directory, LANG/LC_ALL, HOME, USER, HOSTNAME and umask (hence also different hash seeds). Non-trivial = at least 2 distinct non-root owners or a signer; distinct by configuration hash.".into()
+        "builder configurations with a source date in the past, up to 5 distinct non-root users and groups, file mtimes on both sides of the source date, unsigned or signed with a deterministic key (RSA PKCS#1, Ed25519, ECDSA/RFC6979); each configuration is built 3 times sequentially and 3 times concurrently (threads) in this process and 3 times in freshly started child processes with different TZ, working directory, LANG/LC_ALL, HOME, USER, HOSTNAME, SOURCE_DATE_EPOCH (unset / 2100 / 0) and umask (hence also different hash seeds). Non-trivial = at least 2 distinct non-root owners or a signer; distinct by configuration hash.".into()
     }
     fn assumptions(&self) -> Vec<String> {
         vec![
@@ -132,7 +135,7 @@ impl Property for C11 {
             },
             Phase::Random {
             name: "rebuilds",
-            cases: tier.pick(240, 12_000),
+            cases: tier.pick(480, 12_000),
             strat: Arc::new(|| {
                 (config_any(CfgParams { max_files: 8, sizes: size_small(), comp: comp_fast(), sign_prob: 0.3, file_kinds: true, force_large_prob: 0.05, rich_meta: true }), 1_000_000_000u32..1_700_000_000, any::<u64>())
                     .prop_map(|(mut cfg, sd, salt)| {
